@@ -231,13 +231,34 @@ def run(prog, rep, tier):
               "slices are not contiguous / cursor not advanced by the slice length: " + why)
     # destination
     recv = ap.recv
-    okd = recv[0] == "sub" and recv[2] == idx and recv[1][0] == "ext" and recv[1][1] == "dict"
-    if okd:
-        comp = recv[1][2][0]
-        okd = comp[0] == "comp" and comp[2] == ("tuple", (("elem", ("ext", "range", (L,), ())), ("list", ()))) and comp[3][0][1] == ("ext", "range", (L,), ())
-    rep.check("FLOW.destination", okd, fwhere(f, ap.node), "appended to folds[i] of a dict with one empty list per fold", "the slice is not appended to the fold with the loop's index")
+    rng = ("ext", "range", (L,), ())
+    key = ("elem", rng)
+
+    def gen_ok(gens):
+        return len(gens) == 1 and gens[0][1] == rng and not gens[0][2]
+
+    def container_kind(Cn):
+        """'dict' / 'list' when Cn holds one fresh empty list per fold index 0 .. n_folds-1, in that order"""
+        if Cn[0] == "ext" and Cn[1] == "dict" and len(Cn[2]) == 1 and Cn[2][0][0] == "comp" and Cn[2][0][2] == ("tuple", (key, ("list", ()))) and gen_ok(Cn[2][0][3]):
+            return "dict"
+        if Cn[0] == "comp" and Cn[1] == "dict" and Cn[2] == ("pair", key, ("list", ())) and gen_ok(Cn[3]):
+            return "dict"
+        if Cn[0] == "comp" and Cn[1] == "list" and Cn[2] == ("list", ()) and gen_ok(Cn[3]):
+            return "list"
+        return None
+    kind = container_kind(recv[1]) if recv[0] == "sub" and recv[2] == idx else None
+    okd = kind is not None
+    rep.check("FLOW.destination", okd, fwhere(f, ap.node), "appended to folds[i] of a container with one empty list per fold", "the slice is not appended to the fold with the loop's index")
     ret = T(summ.ret)
-    rep.check("RESULT.folds", ret == ("ext", "list", (("method", recv[1], "values", (), ()),), ()) if okd else False, fwhere(f), "returns the folds in order",
+    okr = False
+    if okd:
+        Cn = recv[1]
+        in_order = ret[0] == "comp" and ret[1] == "list" and ret[2] == ("sub", Cn, key) and gen_ok(ret[3])
+        if kind == "dict":
+            okr = ret == ("ext", "list", (("method", Cn, "values", (), ()),), ()) or in_order
+        else:
+            okr = ret in (Cn, ("ext", "list", (Cn,), ())) or in_order
+    rep.check("RESULT.folds", okr, fwhere(f), "returns the folds in order",
               "result is %s" % fmt(ret)[:80])
     rep.require_count("LAST", 1)
     rep.require_count("TOL", 2)
